@@ -98,6 +98,19 @@ def corpus():
         if lab:
             c["label"] = lab
         out.append(c)
+    # seeded C06-e: no_location parses / separately parsed sources, both orders as variants of each other
+    nl = c05.nl_cases()
+    for i, j in ((1, 2), (2, 1), (3, 4), (4, 3), (5, 6), (6, 5)):
+        c = {"sdl": c05.NL_SDL, "text": nl[i]["text"], "base_text": nl[j]["text"], "variant": "perm_sels" if i < 5 else "perm_defs",
+             "origin": "witness"}
+        if nl[i].get("parts"):
+            c["parts"] = nl[i]["parts"]
+        out.append(c)
+    for i in (0, 7):
+        c = {"sdl": c05.NL_SDL, "text": nl[i]["text"], "base_text": nl[i]["text"], "variant": "base", "origin": "witness"}
+        if nl[i].get("parts"):
+            c["parts"] = nl[i]["parts"]
+        out.append(c)
     chain = c05._CHAIN
     head = "query Q($v: Int) { anchor(req: 1, inn: {v: 1}, lnn: [1]) { ...Ta } }"
     base = head + " " + " ".join(chain)
@@ -109,6 +122,7 @@ def corpus():
 
 def generate(rng, tier):
     quick = tier == "quick"
+    vc.ALT_RULES_ALL = not quick
     n_schemas = 3 if quick else 10
     n_valid = 7 if quick else 20
     cases = []
@@ -135,13 +149,14 @@ def generate(rng, tier):
             ok.append(c)
         except GraphQLError:
             pass
-    vc.prefetch(ok + [dict(c, text=c["base_text"]) for c in ok])
+    allc = ok + list(corpus())
+    vc.prefetch(allc + [{k: v for k, v in dict(c, text=c["base_text"]).items() if k != "parts"} for c in allc])
     return ok
 
 
 def run_impl(case):
     obs = vc.run_rules(case)
-    base = vc.run_rules(dict(case, text=case["base_text"]))
+    base = vc.run_rules({k: v for k, v in dict(case, text=case["base_text"]).items() if k != "parts"})
     obs["base_reported"] = base["reported"]
     obs["base_raised"] = base["raised"]
     obs["base_full"] = base.get("full")
